@@ -134,7 +134,7 @@ func (d *drain) close() { close(d.stop); <-d.done }
 // ---------------------------------------------------------------- case
 
 type MStep struct {
-	Kind string `json:"kind"` // grow | relay | restart | crash
+	Kind string `json:"kind"` // grow | relay | restart | crash | flaky (the node's next block request fails once; the connector retries after a second)
 	N    int    `json:"n,omitempty"`
 }
 
@@ -207,6 +207,11 @@ func genMainCase(t *rapid.T) interface{} {
 		default:
 			c.Steps = append(c.Steps, MStep{Kind: "crash", N: rapid.IntRange(1, 3).Draw(t, "back")})
 		}
+	}
+	if rapid.IntRange(0, 11).Draw(t, "flaky") == 0 && len(c.Steps) > 2 {
+		// one transient node error, right before a restart or a scan somewhere in the history
+		at := rapid.IntRange(1, len(c.Steps)-1).Draw(t, "flakyat")
+		c.Steps = append(c.Steps[:at], append([]MStep{{Kind: "flaky"}}, c.Steps[at:]...)...)
 	}
 	c.Steps = append(c.Steps, MStep{Kind: "grow", N: 100}, MStep{Kind: "relay"}, MStep{Kind: "relay"}, MStep{Kind: "relay"}, MStep{Kind: "relay"})
 	return c
@@ -366,6 +371,11 @@ func runMainCase(ci interface{}, rec *pbt.Rec) *pbt.Failure {
 					return f
 				}
 			}
+		case "flaky":
+			nd.Mu.Lock()
+			nd.FailBlocks = 1
+			nd.Mu.Unlock()
+			rec.Label("transient-node-error")
 		case "restart", "crash":
 			if st.Kind == "crash" && len(history) > 0 {
 				// the process died after the hub took its claims but before the cursor was written: an older file is found
